@@ -121,9 +121,10 @@ type Chain struct {
 
 	cbs     []Callback // callbacks of the step in progress
 	ModSvcs map[string]string
-	// what the test module does from inside its callbacks, per context: [0] on a response callback,
-	// [1] on a state callback ("" | "pause" | "kill"); and the consumer it acts for
-	React     map[int][2]string
+	// what the test module does from inside its callbacks, per context: on a response callback, on a
+	// state callback ("" | "pause" | "kill" | "start" | "cap1"), to which context (0: the one the
+	// callback is about); and the consumer it acts for
+	React     map[int]Reaction
 	ReactCons map[int]string
 	HasModSvc bool // the test module service is registered
 	Prepared  bool // the zero-height preparation has run on this chain
@@ -184,7 +185,7 @@ func NewChain(p MParams, names []string, bal map[string]int64) *Chain {
 		App: app, K: app.ServiceKeeper, Height: 1, Now: NowOffset, Phase: "deliver", Params: p,
 		Names: append([]string{}, names...), Addr: map[string]sdk.AccAddress{}, NameOf: map[string]string{},
 		CtxIDs: map[string]int{}, CtxBytes: map[int][]byte{}, ModSvcs: map[string]string{},
-		React: map[int][2]string{}, ReactCons: map[int]string{},
+		React: map[int]Reaction{}, ReactCons: map[int]string{},
 	}
 	c.Ctx = app.BaseApp.NewContext(false, tmproto.Header{Height: c.Height, Time: realTime(c.Now)})
 	c.Handler = service.NewHandler(c.K)
@@ -239,21 +240,41 @@ func NewChain(p MParams, names []string, bal map[string]int64) *Chain {
 	return c
 }
 
-// react: the test module answers a callback by calling the keeper for the context the callback is about
+// Reaction: what the test module does from inside its callbacks for one of its contexts
+type Reaction struct {
+	Resp, State string
+	Tgt         int
+}
+
+// react: the test module answers a callback by calling the keeper again - for the context the callback
+// is about or for another one
 func (c *Chain) react(ctx sdk.Context, id tmbytes.HexBytes, which int) {
 	n := c.CtxIDs[string(id)]
-	op := c.React[n][which]
+	r := c.React[n]
+	op := r.Resp
+	if which == 1 {
+		op = r.State
+	}
 	if op == "" {
 		return
 	}
+	t, tid := n, []byte(id)
+	if r.Tgt != 0 {
+		t, tid = r.Tgt, c.CtxID(r.Tgt)
+	}
+	cons := c.A(c.ReactCons[n])
 	var err error
 	switch op {
 	case "pause":
-		err = c.K.PauseRequestContext(ctx, id, c.A(c.ReactCons[n]))
+		err = c.K.PauseRequestContext(ctx, tid, cons)
 	case "kill":
-		err = c.K.KillRequestContext(ctx, id, c.A(c.ReactCons[n]))
+		err = c.K.KillRequestContext(ctx, tid, cons)
+	case "start":
+		err = c.K.StartRequestContext(ctx, tid, cons)
+	case "cap1":
+		err = c.K.UpdateRequestContext(ctx, tid, nil, 0, sdk.NewCoins(sdk.NewCoin(Denom, sdk.NewInt(1))), 0, 0, 0, cons)
 	}
-	c.cbs = append(c.cbs, Callback{Kind: "react", ID: n, Outs: []string{}, Cause: op, Err: err != nil})
+	c.cbs = append(c.cbs, Callback{Kind: "react", ID: t, Outs: []string{}, Cause: op, Err: err != nil})
 }
 
 // RegisterTestModuleService registers a module service (finding D9; the repository's own
